@@ -34,7 +34,9 @@ KN = ["K0", "K1"]
 def target_strategy():
     from hypothesis import strategies as st
 
-    lit = st.lists(st.sampled_from(G.LIT_POOL), min_size=1, max_size=5, unique_by=repr).map(lambda v: ["lit", v])
+    # values whose repr is not a Python literal: members of int / str enums, infinity
+    odd = [["enum", "RED"], ["enum", "BLUE"], ["enum", "LOW"], ["float", "inf"]]
+    lit = st.lists(st.sampled_from(G.LIT_POOL + odd), min_size=1, max_size=5, unique_by=repr).map(lambda v: ["lit", v])
     elem = st.sampled_from([["cls", "int"], ["cls", "str"], ["obj"], ["cls", "K0"], ["cls", "K1"], ["cls", "bool"],
                             ["lit", [1]], ["lit", ["a"]]])
     tup0 = st.lists(elem, min_size=0, max_size=3).map(lambda e: ["tup", e])
@@ -187,7 +189,7 @@ def run_case(spec):
         fb_id = methods[-1]["id"]
         T = normalize_type(prog.anns["0_k0" if spec.get("kwmode") else "0_a0"], None)
         tspec = spec["target"]
-        corpus = G.value_corpus(KN) + [["tuple", [["tuple", [["int", 1]]]]], ["tuple", [["int", 1], ["str", "a"], ["int", 2]]],
+        corpus = G.value_corpus(KN) + [["enum", "RED"], ["enum", "BLUE"], ["enum", "LOW"], ["enum", "HIGH"], ["float", "inf"]] + [["tuple", [["tuple", [["int", 1]]]]], ["tuple", [["int", 1], ["str", "a"], ["int", 2]]],
                                         ["str", "hello"], ["dict", [[["str", "b"], ["int", 2]]]],
                                         ["mproxy", [[["str", "a"], ["int", 1]]]], ["mproxy", [[["int", 1], ["str", "a"]]]],
                                         ["mproxy", []]]
